@@ -606,8 +606,15 @@ def run(ctx):
                     and not any(glob.m(q, t) or (q.endswith("/**") and glob.m(q[:-3], t)) for q in sc0)]
             f0 = {"max_lines": None, "ext": None, "exclude": [], "warn_only": False, "wae": False, "no_gitignore": False, "count_comments": False,
                   "count_blank": False, "baseline": False, "warn_threshold": None, "fail_fast": False}
-            if cfg["structure"] is None and len(tops) >= 2 and not config_error(cfg, f0) and rng.random() < 0.5:
-                roots = rng.sample(tops, rng.randint(2, min(3, len(tops))))
+            # an ignore file of the project root that hides something BELOW one of the candidate roots: always run, with
+            # a single sub-directory root too (the ignore file then lies above the scan root)
+            ign_below = bool(cfg["gitignore"]) and any("/" in rel and rel.split("/")[0] in tops and
+                                                       any(gitignored("/".join(rel.split("/")[:i]), i < rel.count("/") + 1, cfg["gitignore"]) for i in range(2, rel.count("/") + 2))
+                                                       for rel in proj.files)
+            if cfg["structure"] is None and len(tops) >= 1 and not config_error(cfg, f0) and (ign_below or (len(tops) >= 2 and rng.random() < 0.5)):
+                roots = rng.sample(tops, rng.randint(1 if ign_below else 2, min(3, len(tops))))
+                if ign_below:
+                    hist["multi_root_ignore_file_above"] = hist.get("multi_root_ignore_file_above", 0) + 1
                 use_include = rng.random() < 0.3
                 facts0, _ = oracle(proj, cfg, f0, glob, None)
                 sub = [f for f in facts0 if any(f["path"][2:].startswith(r + "/") for r in roots)]
